@@ -115,7 +115,7 @@ def build_coq(clean=False):
     mk = os.path.join(COQ, "Makefile")
     if not os.path.exists(mk) or os.path.getmtime(mk) < os.path.getmtime(os.path.join(COQ, "_CoqProject")):
         sh(["coq_makefile", "-f", "_CoqProject", "-o", "Makefile"], cwd=COQ)
-    rc, out = sh(["timeout", "3000", "make", "-j%d" % NCPU], cwd=COQ, timeout=3100)
+    rc, out = sh(["timeout", "3000", "make", "-k", "-j%d" % NCPU], cwd=COQ, timeout=3100)
     _state["coq_ok"] = rc == 0
     _state["coq_log"] = out
     return rc == 0, out
@@ -153,7 +153,9 @@ def build_all(clean=False):
     log += regen_sources()
     ok_c, out = build_coq(clean)
     log += out
-    ok_m, out = (False, "") if not ok_c else build_model()
+    # the model is extracted from the model files alone: a proof file that no longer checks must not
+    # keep the correspondence suites from running (they are what finds the failing input)
+    ok_m, out = build_model()
     log += out
     return ok_h and ok_c and ok_m, log
 
